@@ -219,6 +219,7 @@ class Engine:
                 self.by_last.setdefault(n.split('::')[-1], []).append(n)
         self.stats = {'steps': 0, 'forks': 0, 'queries': 0, 'solver_s': 0.0, 'havoc': {}, 'fns': {}, 'models': {}, 'bound_hits': 0}
         self.resolve_cache = {}
+        self.const_params = {}      # const-generic parameters bound by the obligation, e.g. {'PURE_LOCK': BoolVal(True)}
         from . import models
         self.models = models
 
@@ -453,6 +454,8 @@ class Engine:
         m = re.match(r"^'(.)'$", c)
         if m:
             return z3.BitVecVal(ord(m.group(1)), 32)
+        if c in self.const_params:
+            return self.const_params[c]
         r = self.models.const_model(self, st, c)
         if r is not None:
             return r
@@ -899,18 +902,23 @@ class Engine:
                 args[i] = self.closure_from_type(a.attrs['const'], fr.fn.name)
         ret_ty = fr.fn.types.get(dest[1], '?') if dest[0] == 'local' else (dest[3] if dest[0] == 'field' else '?')
         ctx = CallCtx(self, st, callee, args, dest, nxt, work, ret_ty)
+        stripped = strip_generics_tail(callee)
         for rx, h in self.hooks:
-            if rx.search(callee):
+            if rx.search(callee) or (stripped != callee and rx.search(stripped)):
                 r = h(ctx)
                 if r is not None:
                     return self.apply(ctx, r)
         r = self.models.dispatch(ctx)
         if r is not None:
             return self.apply(ctx, r)
-        try:
-            tgt = self.resolve_fn(callee, len(args))
-        except MirError as e:
-            raise
+        tgt = self.resolve_fn(callee, len(args))
+        if not tgt:
+            m = re.match(r'^<([A-Z]\w{0,12}) as (.+)>::(\w+)', strip_generics_tail(callee))
+            if m and args:
+                recv = self.deref_val(st, args[0])
+                rty = type_head(recv.ty).split('::')[-1] if isinstance(recv, Obj) and recv.ty else None
+                if rty:
+                    tgt = self.resolve_fn(f'<{rty} as {m.group(2)}>::{m.group(3)}', len(args))
         if tgt:
             self.push(st, tgt, args, dest, nxt)
             return True
